@@ -83,12 +83,13 @@ def floors(tier):
          "binding:manual-sweep": 330, "identity:normalize=False": 330, "identity:normalize=True": 330,
          "cut_multiset_checks": 1200, "cut_multiset_binding": 160, "schmidt_cuts_compared": 1400, "entropies_compared": 1400,
          "norm_compared": 300, "is_canonical_checked": 600, "final_to_tensor_crosschecks": 400, "start:ghz": 36,
-         "start:doubled": 40, "twin_checks": 100, "start:zero-state": 15, "start:product": 25, "start:identity": 3,
+         "start:doubled": 40, "observers_with_central_block": 150, "norm_with_central_block_on_noncanonical_state": 100,
+         "norm_with_central_block_on_noncanonical_state:factor!=1": 30, "twin_checks": 100, "start:zero-state": 15, "start:product": 25, "start:identity": 3,
          "opts:D_block-dict-shuffled": 40, "opts:D_block-dict-shuffled:binding": 20, "defaults:canonize_": 150,
          "defaults:canonize_:all-omitted": 25, "defaults:truncate_": 60, "defaults:orthogonalize_site_": 80,
          "defaults:absorb_central_": 100, "defaults:diagonalize_central_": 40, "states_with_site_amplitude_scale": 150, "states_with_tiny_site_amplitude": 80,
-         "states_with_huge_site_amplitude": 40, "states_with_site_amplitude_scale_and_factor": 40, "start:graded": 60, "start:graded-harness": 25, "small_weight_truncations": 20,
-         "small_weight_local_truncations": 20, "weights_compared_relatively": 600, "local_weights_compared_relatively": 1200, "start:sum-of-products": 40, "start:random": 40, "rank_deficient_cuts": 30, "tie_cuts": 28,
+         "states_with_huge_site_amplitude": 40, "states_with_site_amplitude_scale_and_factor": 40, "start:graded": 60, "start:graded-harness": 25, "small_weight_truncations": 16,
+         "small_weight_local_truncations": 16, "weights_compared_relatively": 600, "local_weights_compared_relatively": 1200, "start:sum-of-products": 40, "start:random": 40, "rank_deficient_cuts": 30, "tie_cuts": 28,
          "kind:mpo": 120, "N=1": 24, "N=2": 120, "N=6": 60, "must_reject": 70}
     return {name: v * k for name, v in f.items()}
 
@@ -451,10 +452,43 @@ class Prog:
         self.central_norm("orthogonalize_site_", what)
         if nz:
             self.factor_is("orthogonalize_site_:normalize", what, 1, exact=True)
+        if rng.random() < 0.5:
+            self.observers_with_central()
         if rng.random() < 0.55:
             self.step_diagonalize()
+            if rng.random() < 0.3:
+                self.observers_with_central()
         if rng.random() < 0.85:
             self.step_absorb()
+
+    def observers_with_central(self):
+        """Read-only observers called *while a central block is present*.  orthogonalize_site_ may be called on any state, so the
+        sites beside the block are in general not canonical and the block alone does not hold the norm: everything is judged
+        against the dense state at this moment (central block contracted where it sits)."""
+        psi, ctx, rng = self.psi, self.ctx, self.rng
+        pC = psi.pC
+        left = [R.site_isometry_defect(psi[n], "last", self.nrp) for n in range(0, pC[0] + 1)]
+        right = [R.site_isometry_defect(psi[n], "first", self.nrp) for n in range(pC[1], self.N)]
+        noncanon = max(left + right + [0.0]) > 1e-6
+        ctx.count("observers_with_central_block")
+        if noncanon:
+            ctx.count("norm_with_central_block_on_noncanonical_state")
+            if psi.factor != 1:
+                ctx.count("norm_with_central_block_on_noncanonical_state:factor!=1")
+        self.step_observers(central=True)
+        if psi.pC != pC or pC not in psi.A:
+            ctx.violation("central-block-moved-by-observer", f"norm/get_Schmidt_values/get_entropy moved the central block {pC} -> {psi.pC}",
+                          self.witness())
+            raise Stop
+        # to_tensor() ignores the central block by construction; on a shallow copy that absorbed it, it must give this state
+        cp = psi.shallow_copy()
+        cp.absorb_central_(to=rng.choice(("first", "last")))
+        a = R.obs_tensor(cp, self.loc)
+        if not ctx.margin("obs:to_tensor-after-absorb", R.maxabs(a - self.v),
+                          CT * R.EPS * max(R.nrm(self.v), self.cond_scale(), self.cond_rel * R.nrm(self.v))):
+            ctx.violation("observation:to_tensor-after-absorb-on-copy", f"central block at {pC}: shallow_copy + absorb_central_ + to_tensor differs "
+                          f"from the site contraction by {R.maxabs(a - self.v):.3e}", self.witness())
+            raise Stop
 
     def step_diagonalize(self, opts=None):
         rng, psi, ctx = self.rng, self.psi, self.ctx
@@ -517,15 +551,17 @@ class Prog:
         else:
             self.factor_is("truncate_", what, n0, rel=cr0)
 
-    def step_observers(self):
+    def step_observers(self, central=False):
         """norm(), get_Schmidt_values(), get_entropy(alpha): compared with the dense state; the object must not move."""
         rng, psi, ctx, loc, N = self.rng, self.psi, self.ctx, self.loc, self.N
-        self.steps.append(["observers"])
+        self.steps.append(["observers" + (f" with central block at {psi.pC}" if central else "")])
         n0, cr0 = R.nrm(self.v), self.cond_rel
         nrm = psi.norm()
         ctx.count("norm_compared")
         if not ctx.margin("norm", abs(nrm - n0), ID_TOL * cr0 * n0):
-            ctx.violation("norm-value", f"norm() = {nrm!r}, dense norm {n0!r}", self.witness())
+            ctx.violation("norm-value" + (":central-block-present" if central else ""),
+                          f"norm() = {nrm!r}, dense norm {n0!r}" + (f" (central block at {psi.pC}, factor {psi.factor!r})" if central else ""),
+                          self.witness())
             raise Stop
         sv = psi.get_Schmidt_values()
         if len(sv) != N + 1:
